@@ -1538,9 +1538,39 @@ def plan(tier, seed):
                        "distinct": 300}}
 
 
+def controls(ctx):
+    """The other side of 'refused with the library's error': forms that use rarely combined but documented features are NOT errors. A refusal here, or an
+    internal exception, is judged like one on a broken form (the catalogue would otherwise reward a converter that fails on everything unusual)."""
+    base_q = [("text", "q1", {"label": "Q1"}), ("integer", "q2", {"label": "Q2"})]
+    cases = []
+    for v in ("yes", "true", "Yes", "TRUE"):
+        cases.append((f"omit-instance-id-alone:{v}", gen.simple_form(base_q, settings={"omit_instanceID": v})))
+    cases.append(("omit-instance-id+audit", gen.simple_form(base_q + [("audit", "audit", {})], settings={"omit_instanceID": "yes"})))
+    cases.append(("omit-instance-id+instance-name", gen.simple_form(base_q, settings={"omit_instanceID": "yes", "instance_name": "concat('a', ${q1})"})))
+    e1 = gen.simple_form([("text", "q1", {"label": "Q1", "save_to": "p1"})], settings={"omit_instanceID": "yes"})
+    e1.entities = {"list_name": "things", "label": "'x'"}
+    cases.append(("omit-instance-id+entities", e1))
+    cases.append(("only-hidden-rows", gen.simple_form([("calculate", "c1", {"calculation": "1"}), ("hidden", "h1", {}), ("start", "s1", {})])))
+    cases.append(("group-of-calculates", gen.simple_form([("begin group", "g", {"label": "G"}, [("calculate", "c1", {"calculation": "1"})]), ("text", "q", {"label": "Q"})])))
+    cases.append(("settings-header-only", gen.simple_form(base_q, settings={"form_title": None})))
+    cases.append(("instance-id-setting", gen.simple_form(base_q, settings={"instance_id": "timestamp"})))
+    cases.append(("single-note", gen.simple_form([("note", "n", {"label": "N"})])))
+    for k, (name, f) in enumerate(cases):
+        if not ctx.mine(k):
+            continue
+        for fmt in ("dict", "xlsx", "md"):
+            o = drive.convert_form(f, fmt=fmt)
+            ctx.ctr("control_forms")
+            ctx.case(sig=f"control|{name}|{fmt}|{'ok' if o.ok else o.exc_type}")
+            if not o.ok:
+                kind = "refused" if o.exc_is_pyxform else f"crash:{o.exc_type}"
+                ctx.viol(f"control-form:{kind}:{name.split(':')[0]}", f"a valid form ({name}, {fmt}) is not converted: {o.brief()[:250]} at {o.exc_frame}", common.witness(f, kind="control:" + name, fmt=fmt))
+
+
 def run_shard(ctx):
     pl = plan(ctx.tier, ctx.seed)
     names = sorted(KINDS)
+    controls(ctx)
     for i in range(pl["na"]):
         if not ctx.mine(i):
             continue
